@@ -99,7 +99,7 @@ pub fn run(ctx: &Ctx) -> i32 {
     let thorough = ctx.tier == Tier::Thorough;
     let want = Want::all();
     // Hamming balls around the default stack
-    let plan: Vec<(usize, usize)> = if thorough { vec![(1, 4), (2, 4), (3, 4), (4, 3)] } else { vec![(1, 3), (2, 3), (3, 3), (4, 2)] };
+    let plan: Vec<(usize, usize)> = if thorough { vec![(1, 8), (2, 5), (3, 4), (4, 3)] } else { vec![(1, 3), (2, 3), (3, 3), (4, 2)] };
     for (n, k) in plan {
         let fam = format!("stack-n{}-k{}", n, k);
         if !ctx.wants_family(&fam) {
